@@ -508,6 +508,49 @@ func runC10(p *an.Prog, r *an.Run, tier string) {
 	r.Floor("bigint-mutations", nMut, 10)
 	r.Check(len(bad) == 0, "no-shared-bigint", "repo", token.NoPos, "no in-place big.Int mutation of shallow copies of shared balances", "%s", strings.Join(bad, "; "))
 
+	// ---- rmw-atomic: a ledger write computed from a ledger read of the same function must share a lock region with that read
+	bad = nil
+	nRMW := 0
+	for _, fn := range allFns {
+		if inDriverPkg(fn) {
+			continue
+		}
+		for _, w := range an.Calls(fn, false) {
+			if !isLedgerWriteCall(w) {
+				continue
+			}
+			d := p.Derives(0, methodArgs(w)...)
+			for _, rd := range d.CallsTo(func(f *types.Func) bool { return isStoreMethodNamed(f, "GetNodeBalance", "GetAccountBalance") }) {
+				if rd.Parent() != fn {
+					continue
+				}
+				nRMW++
+				hr, hw := li(fn).Before[rd], li(fn).Before[w.(ssa.Instruction)]
+				common := false
+				for k, wr := range hr {
+					if w2, ok := hw[k]; ok && wr && w2 {
+						common = true
+						// held continuously: no instruction between read and write without it
+						for _, b := range fn.Blocks {
+							for _, in := range b.Instrs {
+								if an.Dominates(rd, in) && an.PathAvoiding(fn, in, nil, func(x ssa.Instruction) bool { return x == w.(ssa.Instruction) }, nil) != nil {
+									if _, ok := li(fn).Before[in][k]; !ok {
+										common = false
+									}
+								}
+							}
+						}
+					}
+				}
+				if !common {
+					bad = append(bad, an.ObjString(an.CallObj(w))+" in "+an.FuncName(fn)+" at "+p.Pos(w.Pos())+" writes an amount computed from the balance read at "+p.Pos(rd.Pos())+" without one mutex held across both: two concurrent requests can both read the old balance (lost update / double spend)")
+				}
+			}
+		}
+	}
+	r.Floor("read-modify-write-sites", nRMW, 1)
+	r.Check(len(bad) == 0, "rmw-atomic", "repo", token.NoPos, "balance read-modify-write sequences outside the store run under one mutex", "%s", strings.Join(dedup(bad), "; "))
+
 	// ---- no-block-under-lock
 	checkNoBlockUnderLock(p, r, "no-block-under-lock", func(fn *ssa.Function) bool { return true }, li)
 }
